@@ -15,6 +15,11 @@ import LasModel.Driver.CopcD
 import LasModel.Driver.HttpD
 namespace LasModel.Driver
 
+/-- the operator tables of the view classes as the model has them (`Gen.Views`) -/
+def viewTables : String :=
+  let sh (l : List (String × String)) := ",".intercalate (l.map fun p => p.1 ++ ":" ++ p.2)
+  s!"ops={sh Gen.Views.arrayViewOps} minmax={sh Gen.Views.arrayViewMinMax} sub={sh Gen.Views.subFieldCmp} scaled={sh Gen.Views.scaledCmp}"
+
 def dispatch (line : String) : String :=
   match (line.trimAscii.toString.splitOn " ").filter (· ≠ "") with
   | "ge" :: rest => (Ge.handle rest).getD "bad-op"
@@ -31,6 +36,7 @@ def dispatch (line : String) : String :=
   | "cz" :: rest => (CompD.handle rest).getD "bad-op"
   | "cp" :: rest => (CopcD.handle rest).getD "bad-op"
   | "ht" :: rest => (HttpD.handle rest).getD "bad-op"
+  | ["vw", "tables"] => viewTables
   | _ => "bad-op"
 
 partial def loop (h : IO.FS.Stream) (out : IO.FS.Stream) : IO Unit := do
